@@ -35,11 +35,15 @@ def run(ctx):
     results[0]["failures"] += fails
     results[0]["evaluations"] += n_hist
     results[0]["samples"] = samples + results[0]["samples"]
+    n_obj, fails_obj = cc.clim_object_history(tier, rng, 120 if tier == "quick" else 1200)
+    results[0]["failures"] += fails_obj
+    results[0]["evaluations"] += n_obj
     out = adapters.merge(
         results,
         rule="per test (all 11 functions of qartod, argo, axds): a random sample of the in-domain generated cases of the "
              "per-test properties (lengths 0,1,2,... and every missing placement included), each call snapshotted before/"
              "after (purity), 15% repeated later, implementation vs Coq model; plus one interleaved history mixing all "
-             "tests, executed twice in different orders. non-trivial = >=2 distinct flags or raises")
+             "tests, executed twice in different orders; plus ClimatologyConfig OBJECTS reused across calls with other "
+             "series (flags equal to fresh calls, object state unchanged). non-trivial = >=2 distinct flags or raises")
     out["distribution"]["interleaved_history_calls"] = n_hist
     return out
